@@ -119,6 +119,11 @@ def _gen_ops(rng, n_ops, n_prim, world_has_nac, fault_mode, tier):
         seq.append(None)
     for i in range(n_ops):
         kind = seq[i] if seq[i] else pick()
+        # the classic staleness pattern: setter, query (fills lazily built caches), the same setter with other values,
+        # query - planted often enough that every batch contains it for every setter kind
+        if (kind in ("set_nac", "set_masses", "set_fc", "cutoff", "symmetrize", "set_forces", "gen_disp") and legal(kind)
+                and i + 3 < n_ops and seq[i + 1] is None and rng.random() < 0.3):
+            seq[i + 1], seq[i + 2], seq[i + 3] = "query", kind, "query"
         _COVER[(prev, kind)] = _COVER.get((prev, kind), 0) + 1
         prev = kind
         op = {"op": kind}
